@@ -327,6 +327,25 @@ func crashDir(data map[string][]byte, ws []envfs.Op, writes, torn int) *envfs.FS
 	return fs
 }
 
+// c13Twin selects the cases that are also run through the exported API on a real directory: every crash prefix
+// with a whole-or-absent last write, and every single-file damage at a coarse grid of positions.
+func c13Twin(c *c13Case) bool {
+	if c.Crash {
+		return c.Torn < 0 || c.Torn%64 == 0
+	}
+	if len(c.Ops) != 1 {
+		return len(c.Ops) == 2 && c.Ops[1].At%128 == 0
+	}
+	op := c.Ops[0]
+	switch op.Op {
+	case "flip":
+		return op.At%32 == 0 && op.Bit == 0
+	case "trunc":
+		return op.At%16 == 0
+	}
+	return true
+}
+
 func c13Run(ci interface{}, r *core.Rec) {
 	c := ci.(*c13Case)
 	if c.Fmt == "p2" {
@@ -385,8 +404,15 @@ func c13RunP2(c *c13Case, r *core.Rec) {
 			}
 		}
 		var o scen.P2Obs
+		var twinStart *envfs.FS
+		if c13Twin(c) {
+			twinStart = fs.Clone()
+		}
 		s.ObserveVerify(fs.Clone(), cfg.G, &o)
 		s.ObserveRepair(fs, cfg.G, c.DC, &o)
+		if twinStart != nil && o.VerifyPanic == nil && o.RepairPanic == nil {
+			diskTwinP2(s, twinStart, &o, &p2Case{G: cfg.G, DoubleCheck: c.DC}, r)
+		}
 		r.AddStates(1)
 		r.AddTransitions(2)
 		r.Outcome(fmt.Sprintf("p2 v:%s/%v r:%s/%d", errClass(o.VerifyErr), o.Counts, errClass(o.RepairErr), len(o.RepairedPaths)))
@@ -495,8 +521,15 @@ func c13RunP1(c *c13Case, r *core.Rec) {
 			}
 		}
 		var o scen.P1Obs
+		var twinStart *envfs.FS
+		if c13Twin(c) && c.DC {
+			twinStart = fs.Clone()
+		}
 		s.ObserveVerify(fs.Clone(), c.DC, &o)
 		s.ObserveRepair(fs, c.DC, &o)
+		if twinStart != nil && o.VerifyPanic == nil && o.RepairPanic == nil {
+			diskTwinP1(s, twinStart, &o, &o, &p1Case{DC: c.DC}, r)
+		}
 		r.AddStates(1)
 		r.AddTransitions(2)
 		r.Outcome(fmt.Sprintf("p1 v:%s/%+v r:%s/%d", errClass(o.VerifyErr), o.Result, errClass(o.RepairErr), len(o.RepairedPaths)))
